@@ -24,10 +24,10 @@ SOLVER_TIME_LIMIT = 120
 
 
 def cases(tier):
-    out = [("pure", r) for r in range(360 if tier == "quick" else 15000)]
-    out += [("mixed", r) for r in range(120 if tier == "quick" else 5000)]
-    out += [("prod", r) for r in range(120 if tier == "quick" else 4000)]
-    out += [("sk", r) for r in range(40 if tier == "quick" else 600)]
+    out = [("pure", r) for r in range(360 if tier == "quick" else 80000)]
+    out += [("mixed", r) for r in range(120 if tier == "quick" else 30000)]
+    out += [("prod", r) for r in range(120 if tier == "quick" else 30000)]
+    out += [("sk", r) for r in range(40 if tier == "quick" else 2400)]
     return out
 
 
